@@ -78,12 +78,28 @@ def versions():
     return v
 
 
+PROPERTIES = ["C05", "C17", "C18", "C20"]
+FEATURES = []  # set in main(): one cargo feature per selected property
+
+
 def base_cmd():
-    return ["cargo", "kani", "--target-dir", TARGET]
+    cmd = ["cargo", "kani", "--target-dir", TARGET]
+    if FEATURES:
+        cmd += ["--features", ",".join(FEATURES)]
+    return cmd
+
+
+# Kani adds, for every assertion, a second "reachability" property; CBMC decides each property
+# with its own incremental SAT call, so this doubles-to-squares the work on pointer-heavy
+# harnesses (measured on c17_swap_13_16: 1534 s with, 43 s without).  Vacuity is covered by the
+# explicit kani::cover! witness every harness carries (all must be SATISFIED), therefore the
+# reach checks are switched off for all harnesses.
+DEFAULT_KANI_ARGS = ["-Z", "unstable-options", "--no-assertion-reach-checks"]
 
 
 def harness_cmd(h, extra=()):
     cmd = base_cmd() + ["--harness", h["path"], "--exact", "--output-format", "terse"]
+    cmd += DEFAULT_KANI_ARGS
     cmd += list(h.get("kani_args", []))
     cmd += list(extra)
     return cmd
@@ -290,6 +306,9 @@ def main():
             print("%-34s %-4s %-16s unwind=%-5s timeout=%ss" % (h["name"], h["property"], ",".join(h["tiers"]), h.get("unwind"), h.get("timeout_s")))
         return 0
 
+    # one cargo feature per property: only the harness modules of the selected properties are
+    # compiled (Kani generates code per harness, so build time is proportional to their number)
+    FEATURES[:] = sorted({h["property"].lower() for h in hs})
     t_start = time.time()
     doc = {"tool": "kani", "property": a.property, "tier": a.tier, "jobs": a.jobs,
            "mem_limit_gb": a.mem_gb, "versions": versions(), "harnesses": []}
@@ -300,7 +319,9 @@ def main():
     lock = os.path.join(HERE, "Cargo.lock")
     if not os.path.exists(lock):
         shutil.copy(os.path.join(REPO, "Cargo.lock"), lock)
-    bcmd = base_cmd() + ["--only-codegen"]
+    # same -Z / check flags as the harness runs: they are part of the rustc invocation, a
+    # different set would make every harness process recompile the crate
+    bcmd = base_cmd() + ["--only-codegen"] + DEFAULT_KANI_ARGS
     blog = os.path.join(LOGS, "_build.log")
     rc, bwall, _ = run_limited(bcmd, blog, 1800, None)
     btxt = open(blog, errors="replace").read()
